@@ -115,13 +115,26 @@ func elemAccesses(v ssa.Value, add func(ssa.Instruction, string), depth int) {
 					}
 				}
 			}
+		case *ssa.Phi:
+			if depth > 0 { // an alias of the guarded container carried around a loop
+				elemAccesses(x, add, depth+1)
+			}
 		case *ssa.Slice:
 			add(x, "elem-read")
+			if x.X == v && x.Max == nil {
+				// s[i:j] shares the backing array (and its spare capacity) with s
+				elemAccesses(x, add, depth+1)
+			}
 		case *ssa.Call:
 			switch CalleeName(x) {
 			case "builtin:len", "builtin:cap":
 			case "builtin:append":
-				add(x, "elem-read")
+				if len(x.Call.Args) > 0 && x.Call.Args[0] == v {
+					// append(s, …) writes into s's backing array whenever capacity allows
+					add(x, "elem-write")
+				} else {
+					add(x, "elem-read")
+				}
 			case "builtin:delete":
 				add(x, "elem-write")
 			case "builtin:copy":
